@@ -117,6 +117,46 @@ func checkC21(c *Ctx) *report.Result {
 		r.Sample(map[string]interface{}{"channel_type": tk, "timer_stores": len(stores), "period_form": want[tk].String()})
 	}
 
+	// ---- Q-trigger: the period loaded by a trigger is that of the frequency just written
+	r.Rule("Q-trigger", "NRx4 write with bit 7 set (channels 1-3): afterwards the frequency field holds (written bits 2-0) << 8 | old low byte and the timer holds the period of that new frequency - for every high part 0-7 x representative low bytes, with the previous high part different")
+	{
+		pObj, pPath := c.powerCell()
+		nrx4 := []int{0xFF14, 0xFF19, 0xFF1E}
+		for k := 0; k < 3 && pObj != nil; k++ {
+			mul := int64(4)
+			if k == 2 {
+				mul = 2
+			}
+			var bad []string
+			n := 0
+			for h := int64(0); h < 8; h++ {
+				for _, lo := range []int64{0x00, 0xA5, 0xFF} {
+					oldF := ((h ^ 5) << 8) | lo
+					newF := (h << 8) | lo
+					ev := c.evalDecoder(true, nrx4[k], nrx4[k], func(st *ai.State) {
+						st.SetCell(pObj, pPath, ai.NewConstBool(true))
+						w, sg := ai.TypeShape(ai.LeafTypeAt(chObjs[k].T, ".frequency"))
+						st.SetCell(chObjs[k], ".frequency", ai.NewConstInt(w, sg, oldF))
+						if k == 0 {
+							c.forceSweepShift(st, chObjs[0], c.reachableObjects(chObjs[0]), 0, 0)
+						}
+					}, ai.NewConstInt(8, false, 0x80|h))
+					n++
+					f, fc := constOf(c.cellInt(ev.Post, chObjs[k], ".frequency"))
+					t, tc := constOf(c.cellInt(ev.Post, chObjs[k], ".timer"))
+					if !(fc && f == newF && tc && t == mul*(2048-newF)) && len(bad) < 3 {
+						bad = append(bad, fmt.Sprintf("old frequency %03X, NRx4 := %02X: frequency' = %s (documented %03X), timer' = %s (documented %d)", oldF, 0x80|h, ai.ValueString(c.cellInt(ev.Post, chObjs[k], ".frequency")), newF, ai.ValueString(c.cellInt(ev.Post, chObjs[k], ".timer")), mul*(2048-newF)))
+					}
+				}
+			}
+			r.Ob("Q-trigger", len(bad) == 0 && n == 24, fmt.Sprintf("channel %d: trigger loads the period of the frequency written by the same NRx4 write", k+1), "", strings.Join(bad, "; "))
+			r.Instances["Q-trigger"] += n
+		}
+		if pObj == nil {
+			r.Fail("unresolved", "Q-trigger", "power flag", "", "not found")
+		}
+	}
+
 	// ---- Q-step for squares and wave
 	steps := []int{8, 8, 32}
 	posPath := []string{".dutyIndex", ".dutyIndex", ".position"}
